@@ -214,6 +214,16 @@ impl<'tcx> Cx<'tcx> {
                         }
                     }
                 }
+                // address of a `static` item: name it, and say whether it can change at run time (static mut / interior mutability)
+                if let Some(d) = c.check_static_ptr(self.tcx) {
+                    self.out.push_str(",\"static\":");
+                    let p = self.path(d);
+                    esc(&p, &mut self.out);
+                    let sty = self.tcx.type_of(d).instantiate_identity().skip_norm_wip();
+                    let env = ty::TypingEnv::fully_monomorphized();
+                    let frozen = !self.tcx.is_mutable_static(d) && sty.is_freeze(self.tcx, env);
+                    let _ = write!(self.out, ",\"sfrozen\":{}", frozen);
+                }
                 if let ty::FnDef(d, _) = c.const_.ty().kind() {
                     self.out.push_str(",\"fn\":");
                     let p = self.path(*d);
